@@ -12,7 +12,9 @@
 (* NARROW = TRUE switches to the u16 arithmetic of the pinned tree before  *)
 (* the repairs (negative controls, expected to fail).                      *)
 (***************************************************************************)
-EXTENDS Integers, Sequences, FiniteSets, TLC, SequencesExt, Abstract, Driver
+EXTENDS Integers, Sequences, FiniteSets, TLC, SequencesExt, Abstract, Driver, Controller
+
+L(fW, fH, pw, ph, pox, poy) == INSTANCE LemmaDefs WITH W <- fW, H <- fH, w <- pw, h <- ph, ox <- pox, oy <- poy
 
 CONSTANTS KIND, NARROW
 
@@ -25,6 +27,8 @@ Cases ==
     [] KIND = "madctl" -> {<<b0, s1, s2, s3>> : b0 \in {8 * k : k \in 0 .. 31} \cup {4 * k : k \in 0 .. 63}, s1 \in 1 .. 14, s2 \in 0 .. 14, s3 \in {0, 1, 5, 11, 14}}
     [] KIND = "group" -> {<<r, m, a, b, c, d>> : r \in 0 .. 3, m \in BOOLEAN, a \in 0 .. 6, b \in 0 .. 6, c \in 0 .. 6, d \in 0 .. 6}
     [] KIND = "angle" -> {<<a>> : a \in -1500 .. 1500}
+    [] KIND = "lemmadefs" -> {<<fW, fH, pw, ph, pox, poy, rot, mir>> : fW \in 1 .. 3, fH \in 1 .. 3, pw \in 1 .. 3, ph \in 1 .. 3,
+                                pox \in 0 .. 2, poy \in 0 .. 2, rot \in 0 .. 3, mir \in BOOLEAN}
     [] OTHER -> {<<len, n, take, skip>> : len \in -1 .. 6, n \in 0 .. 8, take \in 0 .. 3, skip \in 0 .. 3}
 
 Init == case \in Cases
@@ -92,6 +96,27 @@ ClipOk(c) ==
   /\ ItNth16(it, c[2]) = ItNth(it, c[2])
   /\ LET a == TSNew(it, c[3], c[4])  r == TSNext(a) IN r.out = -1 \/ r.out >= 0
 
-Holds == CASE KIND = "init" -> InitOk(case) [] KIND = "scroll" -> ScrollOk(case) [] KIND = "madctl" -> MadctlOk(case)
+\* the record-free restatements that the TLAPS lemma (Lemmas.tla, proofs/) is about agree with the real definitions:
+\* Driver.DWindow sends the offsets OffX / OffY, Controller.CellOf under Dcs.MadctlOf decodes like CellX / CellY,
+\* Geometry.Place is PlaceX / PlaceY
+LemmaDefsOk(c) ==
+  LET fW == c[1]  fH == c[2]  pw == c[3]  ph == c[4]  pox == c[5]  poy == c[6]  rot == c[7]  mir == c[8] IN
+  (pox + pw > fW \/ poy + ph > fH) \/
+  LET cfg == [W |-> fW, H |-> fH, w |-> pw, h |-> ph, ox |-> pox, oy |-> poy, bgr |-> FALSE, refv |-> 0, refh |-> 0,
+              colour |-> "565", iface |-> "rec", batch |-> TRUE]
+      o == [rot |-> rot, mir |-> mir]
+      d == DNew(cfg, o)
+      ls == LogicalSize(cfg, o)
+  IN \A x \in 0 .. ls[1] - 1, y \in 0 .. ls[2] - 1 :
+       LET win == DWindow(d, x, y, x, y)
+           col == win.ops[1][3][1] * 256 + win.ops[1][3][2]
+           page == win.ops[2][3][1] * 256 + win.ops[2][3][2]
+       IN /\ ~win.panic
+          /\ col = x + L(fW, fH, pw, ph, pox, poy)!OffX(rot, mir) /\ page = y + L(fW, fH, pw, ph, pox, poy)!OffY(rot, mir)
+          /\ CellOf(d.madctl, fW, fH, col, page) = <<L(fW, fH, pw, ph, pox, poy)!CellX(rot, mir, col, page), L(fW, fH, pw, ph, pox, poy)!CellY(rot, col, page)>>
+          /\ Place(cfg, o, x, y) = <<L(fW, fH, pw, ph, pox, poy)!PlaceX(rot, mir, x, y), L(fW, fH, pw, ph, pox, poy)!PlaceY(rot, x, y)>>
+          /\ ls = <<L(fW, fH, pw, ph, pox, poy)!LW(rot), L(fW, fH, pw, ph, pox, poy)!LH(rot)>>
+
+Holds == CASE KIND = "init" -> InitOk(case) [] KIND = "lemmadefs" -> LemmaDefsOk(case) [] KIND = "scroll" -> ScrollOk(case) [] KIND = "madctl" -> MadctlOk(case)
            [] KIND = "group" -> GroupOk(case) [] KIND = "angle" -> AngleOk(case) [] OTHER -> ClipOk(case)
 =============================================================================
